@@ -295,3 +295,23 @@ func ownFacts() map[string]any {
 	}
 	return out
 }
+
+// releaseFacts: after a handled pack that put n names into the dictionary
+// (around and beyond maxPooledCompressionEntries) the pooled state is clean.
+func releaseFacts() []bool {
+	var out []bool
+	for _, n := range []int{1, 30, 61, 62, 63, 64, 65, 66, 70, 130} {
+		m := new(dns.Msg)
+		m.SetQuestion("www.ex.com.", dns.TypeA)
+		m.Id = 1
+		m.Response = true
+		m.Compress = true
+		for i := 0; i < n; i++ {
+			m.Answer = append(m.Answer, &dns.A{Hdr: dns.RR_Header{Name: fmt.Sprintf("h%d.ex.com.", i), Rrtype: dns.TypeA, Class: dns.ClassINET, Ttl: 1}, A: []byte{10, 0, 0, byte(i)}})
+		}
+		wire.VerifPoolDrain(8)
+		tp := runTryPack(m)
+		out = append(out, tp.handled && wire.VerifInspectPool(2) == "clean")
+	}
+	return out
+}
